@@ -47,6 +47,8 @@ theorem applyRes_noHalt (cfg : Cfg) (pol : Policy) (step : Nat) (tickEv : Ev) (d
   | failed exc failedAt =>
     simp only [applyRes]
     split
+    · exact h
+    split
     · intro c hc
       simp only [List.mem_append, List.mem_cons, List.mem_nil_iff, or_false] at hc
       rcases hc with hc | rfl
